@@ -31,6 +31,11 @@ CLAIMED["C09"] = (
  "Decides the structural necessary conditions of equality search: every GenerateHMAC call outside the hmac library is keyed by GetHMACSecretKey(...) and, where its input may already be an envelope, hashes the decrypted plaintext; both dialect rewriters take the substring length from hmac.GetDefaultHashSize(), which is the default hash size plus the id byte; the placeholder index recorded by both OnBind handlers is proven 0 <= i < len(values); the HMAC processor is subscribed on both sides of the container detector in both proxy factories. That equal plaintexts give equal prefixes (determinism of HMAC) and that the database compares the prefixes as intended are runtime facts and are not decided.",
  NOTE, "DESIGN.md §2 C09")
 
+CLAIMED["C10"] = (
+ "static analysis: SSA value rules (narrowing conversions, buffer provenance of generated tokens), CFG critical-section and dominance rules over every TokenStorage.Save implementation, retry-loop shape rule for consistent tokenization, AST sibling/exhaustiveness rules over the token-type switches, difference-constraint proof of the placeholder range check",
+ "Decides structural necessary conditions of tokenization: no integer parsed from a column is narrowed below its parse width; every generator returns a fresh buffer of the original's length (or the integer's width); every TokenStorage.Save is insert-if-absent inside one lock / write transaction / SetNX or delegates with the same id; AnonymizeConsistently looks up and saves one key derived from value, client context and type, retries a lost race at most once and returns the saved token; all token-type switches cover the supported types with the same Go-type pairing; the token record is keyed by the new token, holds the original, is type-checked on read and an unknown token is returned as is; placeholder indexes are range-checked on both sides. Uniqueness over populations of random values, linearizability of the stores under real schedules, BoltDB/Redis behaviour and the e-mail shape beyond length are runtime facts and are not decided (the e-mail generator's bounds are decided under C14).",
+ NOTE, "DESIGN.md §2 C10")
+
 CLAIMED["C14"] = (
  "static analysis: demand-driven difference-constraint prover (ABCD style) over go/ssa with dominating-branch facts, callee summaries and closed-world caller guards, applied to every slice/index/allocation whose bound derives from a length field, a subtraction or a lossy conversion in the input-facing decoders; bounded-allocation rule; goroutine recovery rule; no-panic scan; decoder state rule",
  "Decides for each of ~90 bound uses in the envelope, wire-protocol, token and codec decoders that the bound is proven in range from the conditions that dominate it (or is in the frozen, reasoned confirmed-table), that every input-sized allocation has a bound the sender does not control alone, that AcraServer's connection goroutines defer recoverConnection before running connection code, and that the decoders contain no explicit panic. Not decided: termination and memory of the SQL parser, scanner loop invariants (covered by the cursor-step rule of C01), invariants carried by struct fields (e.g. non-empty MySQL payloads), YAML/ASN.1 library internals.",
